@@ -911,6 +911,12 @@ package pfcp
 //@   ensures [clean]   forall k RuleKey :: old(live(s.lnode, k.seid)) && !live(s.lnode, k.seid) ==> !(k in DP)
 //@   ensures [isol]    forall k RuleKey :: live(s.lnode, k.seid) ==> ((k in DP) == (k in old(DP)))
 //@   modifies *
-//@   reveal nodeInv allSessOK linked lnodeWF
+//@   reveal linked
 //@   flag perreturn
 //@   serves C01 C04 C05 C07
+//@   at call RemoteSess:
+//@     unfold nodeInv(s.lnode)
+//@   at call Sess:
+//@     unfold nodeInv(s.lnode)
+//@   at call DeleteSess:
+//@     unfold allSessOK(s.lnode)
